@@ -351,11 +351,12 @@ func (w *Encoder) writeSubjectValue(buf *bytes.Buffer, v rdf.SubjectValue) error
 }
 
 func (w *Encoder) writeIRI(buffered *bytes.Buffer, v string) {
-	pr, ok := w.prefixes.CompactPrefix(v)
-	if ok {
-		buffered.WriteString(pr.Prefix + ":" + format_PN_LOCAL(pr.Reference))
+	if pr, ok := w.prefixes.CompactPrefix(v); ok {
+		if local, ok := format_PN_LOCAL(pr.Reference); ok {
+			buffered.WriteString(pr.Prefix + ":" + local)
 
-		return
+			return
+		}
 	}
 
 	if w.base != nil {
